@@ -146,7 +146,7 @@ var malformed = []string{
 	"stress 1 4 100 1", "stress 1 1 100 1 a", "stress 1 9 100 1 a", "stress 1 4 0 1 a", "stress 1 4 5001 1 a",
 	"stress 1 4 100 0 a", "stress 1 4 100 5 b", "stress 1 4 100 1 c", "stress x 4 100 1 a", "stress 1234567890 4 100 1 a",
 	"stress 1 4 1e2 1 a", "stress -1 4 100 1 a",
-	"writers 1 N0o 0", "writers 1 O0o,d0 0", "sched 1 O0o 0", "sched 1 c 0", "writers 1 O1o 0", "writers 1 O0x 0", "writers 1 O0o,G 0", "writers 1 c,O0o 0", "writers 1 O0o,c,c 0", "hosts 1 N0o 0", "hosts 1 P0,c,P0 0", "hosts 1 P1 0", "sched 1 P0 0", "writers 1 P0 0", "hosts 1 O0o 0", "sched 1 Z1 0", "writers 4 O3f 0", "writers 4 O0o 0", "writers 1 L0x 0", "listeners 3 A0 0", "listeners 1 A1 0", "listeners 1 O0o 0", "listeners 1 c,A0 0", "sched 1 A0 0", "hosts 1 F0 0", "writers 1 L1g 0", "sched 1 L0g 0", "hosts 1 L0b 0", "writers 1 L0 0",
+	"writers 1 N0o 0", "writers 1 O0o,d0 0", "sched 1 O0o 0", "sched 1 c 0", "writers 1 O1o 0", "writers 1 O0x 0", "writers 1 O0o,G 0", "writers 1 c,O0o 0", "writers 1 O0o,c,c 0", "hosts 1 N0o 0", "hosts 1 P0,c,P0 0", "hosts 1 P1 0", "sched 1 P0 0", "writers 1 P0 0", "hosts 1 O0o 0", "sched 1 Z1 0", "writers 4 O3f 0", "writers 4 O0o 0", "writers 1 L0x 0", "listeners 3 A0 0", "requests 1 Q0 0", "requests 1 H- 0", "requests 1 H0,H0 0", "requests 1 c 0", "requests 1 H0,c,Q0 0", "requests 4 H0 0", "requests 1 H1 0", "requests 1 H0000 0", "requests 1 H0 1", "requests 1 H0,X0 0", "listeners 1 A1 0", "listeners 1 O0o 0", "listeners 1 c,A0 0", "sched 1 A0 0", "hosts 1 F0 0", "writers 1 L1g 0", "sched 1 L0g 0", "hosts 1 L0b 0", "writers 1 L0 0",
 }
 
 // client lines: configs that open log writers (some OpenWriter calls fail) and close their logs
@@ -266,6 +266,52 @@ func (prop) Generate(rng *core.Rand, tier string, emit func(string)) {
 		for i := 0; i < sample3; i++ {
 			emit(pre + randSched(rng, nt, 4+rng.Intn(16)))
 		}
+	}
+	// the reverse proxy's per-request client (dynamic upstreams) next to the per-handler one, whole calls
+	for _, cs := range []struct {
+		nk    int
+		progs string
+	}{
+		{1, "H0,Q0,c"}, {1, "H0,Q0,Q0,c;H0,Q0,c"}, {2, "H0,Q1,Q01,c;H1,Q0,c"}, {2, "H01,Q-,Q1,Q10,c"},
+		{2, "H0,Q00,c;H0,c"}, {3, "H012,Q2,Q02,c;H1,Q12,Q-,c"}, {1, "H0,Q0;H0,Q0,c"},
+	} {
+		nt := strings.Count(cs.progs, ";") + 1
+		pre := "requests " + strconv.Itoa(cs.nk) + " " + cs.progs + " "
+		emit(pre + "-")
+		for i := 0; i < sample3/3; i++ {
+			emit(pre + randSched(rng, nt, 2+rng.Intn(10)))
+		}
+	}
+	for i := 0; i < nRandom/40; i++ {
+		nk := 1 + rng.Intn(3)
+		nt := 1 + rng.Intn(3)
+		keys := func(min int) string {
+			n := min + rng.Intn(3)
+			if n == 0 {
+				return "-"
+			}
+			s := ""
+			for ; n > 0; n-- {
+				s += strconv.Itoa(rng.Intn(nk))
+			}
+			return s
+		}
+		var ps []string
+		for t := 0; t < nt; t++ {
+			ops := []string{"H" + keys(1)}
+			for n := rng.Intn(4); n > 0; n-- {
+				ops = append(ops, "Q"+keys(0))
+			}
+			if rng.Chance(5, 6) {
+				ops = append(ops, "c")
+			}
+			ps = append(ps, strings.Join(ops, ","))
+		}
+		sc := "-"
+		if l := rng.Intn(12); l > 0 {
+			sc = randSched(rng, nt, l)
+		}
+		emit("requests " + strconv.Itoa(nk) + " " + strings.Join(ps, ";") + " " + sc)
 	}
 	// the unix listener glue, whole calls
 	for _, progs := range []string{"A0,c;A0,c", "A0,F0,c;A0,c", "F0,A0,c;F0,c", "A0,A0,c;A0,c;A0,c", "A0;A0,c"} {
